@@ -11,7 +11,7 @@ RULE = ("Accepted executable / type-system / mixed documents and standalone valu
         "{'', ' ', '\\t', '  ', '\\t '} through print_ast and ASTPrinter. Oracle: print does not raise; printed text "
         "is accepted; parse(print(t)) == t modulo positions (description block flag ignored); two prints are "
         "identical; print(parse(print(t))) == print(t). Non-trivial: the document contains a string value or "
-        "description, or >= 2 definitions; distinct = (text, indent).")
+        "description, or >= 2 definitions; distinct = (text, indent). Thorough tier adds a coverage-guided atheris/libFuzzer campaign per shard (py_gql instrumented, libFuzzer seed derived from VERIF_SEED, GraphQL token dictionary, seeded corpus on even shards and empty corpus on odd ones, inputs <= 160 bytes; findings are counted and kept, never fatal, so the campaign goes on) with the same oracle inside the target; its executions are part of `evaluations`, its distinct non-trivial inputs part of `distinct_nontrivial`.")
 ASSUMPTIONS = [
     "Only texts the library itself accepts are used (acceptance is C01's subject).",
     "For description strings only `value` is compared, not the `block` flag (DESIGN.md C03).",
@@ -238,6 +238,26 @@ def shard(ctx):
                 ctx.violation(sig, d, {"text": text, "entry": case["entry"], "fv": case["fv"], "indent": indent, "via": via})
 
     run()
+
+
+def fuzz_one(text):
+    """target of the coverage-guided phase (thorough tier): print -> parse -> print on whatever the parser accepts"""
+    vios, accepted = check(text, "doc", False, 2, "print_ast")
+    key = None
+    if accepted:
+        toks = R.ref_tokens(text) or []
+        if any(t[0] in ("String", "BlockString") for t in toks) or text.count("{") >= 2:
+            key = tuple(t[0] if t[0] not in ("String", "BlockString") else text[t[2]:t[3]] for t in toks)
+    return vios, key, {"text": text, "entry": "doc", "fv": False, "indent": 2, "via": "print_ast"}
+
+
+def _atheris(ctx):
+    from props.c01 import FUZZ_SEEDS
+    from vlib.fuzz.phase import atheris_phase
+    return atheris_phase("C03", 60000, FUZZ_SEEDS + ['{ a(s: "\\u00e9\\n\\"x\\\\") b(t: """\n    two\n      lines\n  """) }'])(ctx)
+
+
+extra_phases = [("atheris", _atheris)]
 
 
 def replay(case):
